@@ -197,6 +197,80 @@ fn main() {
                 writeln!(out, "{}", oracle::range(w, t, a, b, &src)).unwrap();
             }
         }
+        // sched THREADS ROUNDS SEED (stdin: W TAB REORDER HEX per line)
+        // -> first the sequential reference results (one per line: ok HEX | err | panic), then a line
+        //    "mismatch=N" with the number of results, over all threads and rounds, that differ from the reference,
+        //    then up to 5 lines "diff INDEX THREAD ROUND HEX"
+        "sched" => {
+            let threads: usize = args[2].parse().unwrap();
+            let rounds: usize = args[3].parse().unwrap();
+            let seed: u64 = args[4].parse().unwrap();
+            let cases: Vec<(Config, String)> = stdin
+                .lock()
+                .lines()
+                .map(|l| {
+                    let l = l.unwrap();
+                    let mut it = l.split_whitespace();
+                    let cfg = cfg_fields(&mut it);
+                    (cfg, unhex(it.next().unwrap()))
+                })
+                .collect();
+            let render = |o: Outcome| match o {
+                Outcome::Ok(s) => format!("ok {}", hex(&s)),
+                Outcome::Err => "err".to_string(),
+                Outcome::Panic(_) => "panic".to_string(),
+            };
+            let reference: Vec<String> = cases.iter().map(|(c, s)| render(format(c.clone(), s))).collect();
+            for r in &reference {
+                writeln!(out, "{}", r).unwrap();
+            }
+            let cases = std::sync::Arc::new(cases);
+            let reference = std::sync::Arc::new(reference);
+            let mut handles = Vec::new();
+            for th in 0..threads {
+                let cases = cases.clone();
+                let reference = reference.clone();
+                handles.push(std::thread::spawn(move || {
+                    let mut rng = rng::Rng::new(seed.wrapping_mul(1000).wrapping_add(th as u64));
+                    let mut diffs: Vec<(usize, usize, usize, String)> = Vec::new();
+                    let mut count = 0usize;
+                    for round in 0..rounds {
+                        // a fresh random order per thread and round: interleaves documents and configurations
+                        let mut order: Vec<usize> = (0..cases.len()).collect();
+                        for i in (1..order.len()).rev() {
+                            let j = rng.below(i + 1);
+                            order.swap(i, j);
+                        }
+                        for i in order {
+                            let (c, s) = &cases[i];
+                            let r = match format(c.clone(), s) {
+                                Outcome::Ok(s) => format!("ok {}", hex(&s)),
+                                Outcome::Err => "err".to_string(),
+                                Outcome::Panic(_) => "panic".to_string(),
+                            };
+                            if r != reference[i] {
+                                count += 1;
+                                if diffs.len() < 3 {
+                                    diffs.push((i, th, round, r));
+                                }
+                            }
+                        }
+                    }
+                    (count, diffs)
+                }));
+            }
+            let mut total = 0;
+            let mut all: Vec<(usize, usize, usize, String)> = Vec::new();
+            for h in handles {
+                let (c, d) = h.join().unwrap();
+                total += c;
+                all.extend(d);
+            }
+            writeln!(out, "mismatch={}", total).unwrap();
+            for (i, th, round, r) in all.iter().take(5) {
+                writeln!(out, "diff {} {} {} {}", i, th, round, r).unwrap();
+            }
+        }
         // W -> chain_width
         "chainw" => {
             for line in stdin.lock().lines() {
